@@ -7,9 +7,11 @@ package main
 
 import (
 	"fmt"
+	"go/constant"
 	"go/token"
 	"os"
 	"regexp"
+	"sort"
 	"strings"
 
 	"golang.org/x/tools/go/ssa"
@@ -141,6 +143,17 @@ func (w *World) entryOnlyVia(b *ssa.BasicBlock, conds ...string) bool {
 		for _, want := range conds {
 			if c == want {
 				found = true
+			} else if a, ok1 := atomFromCanon(c); ok1 {
+				// the same test in another spelling (bytes.Equal, operands swapped)
+				if b2, ok2 := atomFromCanon(want); ok2 && a == b2 {
+					found = true
+				}
+			}
+		}
+		if !found {
+			// a boolean helper that stands for the disjunction of the wanted tests
+			if call, isCall := ifi.Cond.(*ssa.Call); isCall && len(b.Preds) == 1 && w.boolHelperIsOr(call, conds) {
+				found = true
 			}
 		}
 		if !found {
@@ -148,6 +161,258 @@ func (w *World) entryOnlyVia(b *ssa.BasicBlock, conds ...string) bool {
 		}
 	}
 	return true
+}
+
+// boolHelperIsOr: the callee of call is a pure boolean module function of
+// equality tests whose result, for every truth assignment to those tests, equals
+// the disjunction of wants (canonical conditions in the caller's terms).
+func (w *World) boolHelperIsOr(call *ssa.Call, wants []string) bool {
+	fn := call.Common().StaticCallee()
+	if fn == nil || !w.InModule(fn) || !isBoolType(call.Type()) || len(fn.Params) != len(call.Common().Args) || len(fn.Blocks) == 0 || len(fn.Blocks) > 12 || !w.pureFn(fn, 0) {
+		return false
+	}
+	env := map[*ssa.Parameter]string{}
+	for i, p := range fn.Params {
+		env[p] = w.Canon(call.Common().Args[i])
+	}
+	w.inlineEnv = append(w.inlineEnv, env)
+	defer func() { w.inlineEnv = w.inlineEnv[:len(w.inlineEnv)-1] }()
+	type key struct{ L, R string }
+	var keys []key
+	idx := map[key]int{}
+	atomKey := func(c string) (int, bool, bool) {
+		a, ok := atomFromCanon(c)
+		if !ok || (a.Rel != relEQ && a.Rel != relLT|relGT) {
+			return 0, false, false
+		}
+		k := key{a.L, a.R}
+		i, seen := idx[k]
+		if !seen {
+			i = len(keys)
+			idx[k] = i
+			keys = append(keys, k)
+		}
+		return i, a.Rel == relEQ, true
+	}
+	type lit struct {
+		i   int
+		pos bool
+	}
+	var want []lit
+	for _, c := range wants {
+		i, pos, ok := atomKey(c)
+		if !ok {
+			return false
+		}
+		want = append(want, lit{i, pos})
+	}
+	litOf := map[ssa.Value]lit{}
+	var leaf func(v ssa.Value) bool
+	leaf = func(v ssa.Value) bool {
+		switch x := v.(type) {
+		case *ssa.Const:
+			return isBoolType(x.Type())
+		case *ssa.Phi:
+			return true
+		case *ssa.UnOp:
+			if x.Op == token.NOT {
+				return leaf(x.X)
+			}
+		}
+		i, pos, ok := atomKey(w.Canon(v))
+		if !ok {
+			return false
+		}
+		litOf[v] = lit{i, pos}
+		return true
+	}
+	for _, b := range fn.Blocks {
+		switch t := lastInstr(b).(type) {
+		case *ssa.If:
+			if !leaf(t.Cond) {
+				return false
+			}
+		case *ssa.Return:
+			if len(t.Results) != 1 || !leaf(t.Results[0]) {
+				return false
+			}
+		}
+		for _, in := range b.Instrs {
+			if ph, ok := in.(*ssa.Phi); ok {
+				for _, e := range ph.Edges {
+					if !leaf(e) {
+						return false
+					}
+				}
+			}
+		}
+	}
+	if len(keys) == 0 || len(keys) > 5 {
+		return false
+	}
+	for mask := 0; mask < 1<<len(keys); mask++ {
+		val := func(l lit) bool { return (mask>>l.i&1 == 1) == l.pos }
+		phis := map[*ssa.Phi]bool{}
+		var eval func(v ssa.Value) bool
+		eval = func(v ssa.Value) bool {
+			switch x := v.(type) {
+			case *ssa.Const:
+				return constant.BoolVal(x.Value)
+			case *ssa.Phi:
+				return phis[x]
+			case *ssa.UnOp:
+				if x.Op == token.NOT {
+					return !eval(x.X)
+				}
+			}
+			return val(litOf[v])
+		}
+		b := fn.Blocks[0]
+		got, done := false, false
+		for steps := 0; steps < 40 && !done; steps++ {
+			var next *ssa.BasicBlock
+			switch t := lastInstr(b).(type) {
+			case *ssa.If:
+				if eval(t.Cond) {
+					next = b.Succs[0]
+				} else {
+					next = b.Succs[1]
+				}
+			case *ssa.Jump:
+				next = b.Succs[0]
+			case *ssa.Return:
+				got, done = eval(t.Results[0]), true
+				continue
+			default:
+				return false
+			}
+			pi := -1
+			for i, p := range next.Preds {
+				if p == b {
+					pi = i
+				}
+			}
+			nv := map[*ssa.Phi]bool{}
+			for _, in := range next.Instrs {
+				if ph, ok := in.(*ssa.Phi); ok && pi >= 0 {
+					nv[ph] = eval(ph.Edges[pi])
+				}
+			}
+			for ph, v := range nv {
+				phis[ph] = v
+			}
+			b = next
+		}
+		if !done {
+			return false
+		}
+		exp := false
+		for _, l := range want {
+			exp = exp || val(l)
+		}
+		if got != exp {
+			return false
+		}
+	}
+	return true
+}
+
+// stakePowerSum: result idx of the Delegatee method fn is the sum of s.Power over
+// every stake s of recv.Stakes ("all"), or over the stakes whose From equals an
+// owner — all of them when the owner is nil — ("owned", with the owner as fn
+// names it: "p0", "recv.Addr"); "" when it is neither.
+func (w *World) stakePowerSum(fn *ssa.Function, idx int) (string, string) {
+	if fn == nil || fn.Blocks == nil {
+		return "", ""
+	}
+	var acc *ssa.Phi
+	for _, b := range fn.Blocks {
+		rt, ok := lastInstr(b).(*ssa.Return)
+		if !ok {
+			continue
+		}
+		if idx >= len(rt.Results) {
+			return "", ""
+		}
+		ph, ok := stripConv(retResult(rt, idx)).(*ssa.Phi)
+		if !ok || (acc != nil && acc != ph) {
+			return "", ""
+		}
+		acc = ph
+	}
+	if acc == nil {
+		return "", ""
+	}
+	elemRe := regexp.MustCompile(`^recv\.Stakes\[(\(phi\(\(φ \+ 1\)\|-1\) \+ 1\)|phi\(\(φ \+ 1\)\|0\)|phi\(0\|\(φ \+ 1\)\))\]$`)
+	// the accumulator: 0 on entry; every other incoming value is the accumulator
+	// itself (element skipped) or the accumulator plus the element's power
+	var add *ssa.BinOp
+	elemC := ""
+	zero := 0
+	var visit func(v ssa.Value, d int) bool
+	visit = func(v ssa.Value, d int) bool {
+		if v == ssa.Value(acc) {
+			return true
+		}
+		switch x := v.(type) {
+		case *ssa.Phi:
+			if d > 3 {
+				return false
+			}
+			for _, e := range x.Edges {
+				if !visit(e, d+1) {
+					return false
+				}
+			}
+			return true
+		case *ssa.BinOp:
+			if x.Op != token.ADD || (add != nil && add != x) {
+				return false
+			}
+			for _, pr := range [][2]ssa.Value{{x.X, x.Y}, {x.Y, x.X}} {
+				if pr[0] == ssa.Value(acc) {
+					if c := w.Canon(pr[1]); strings.HasSuffix(c, ".Power") && elemRe.MatchString(strings.TrimSuffix(c, ".Power")) {
+						add, elemC = x, strings.TrimSuffix(c, ".Power")
+						return true
+					}
+				}
+			}
+		}
+		return false
+	}
+	skipped := false
+	for _, e := range acc.Edges {
+		if k, ok := constInt(e); ok && k == 0 {
+			zero++
+			continue
+		}
+		if e == ssa.Value(acc) {
+			skipped = true
+			continue
+		}
+		if ph, isPhi := e.(*ssa.Phi); isPhi {
+			for _, e2 := range ph.Edges {
+				if e2 == ssa.Value(acc) {
+					skipped = true
+				}
+			}
+		}
+		if !visit(e, 0) {
+			return "", ""
+		}
+	}
+	if zero != 1 || add == nil {
+		return "", ""
+	}
+	if !skipped {
+		return "all", ""
+	}
+	for _, owner := range []string{"p0", "recv.Addr"} {
+		if w.entryOnlyVia(add.Block(), "("+owner+" == nil)", "(bytes.Compare("+owner+", "+elemC+".From) == 0)") {
+			return "owned", owner
+		}
+	}
+	return "", ""
 }
 
 // condCanonHolds: block b is dominated by the `want` edge of an If whose canonical condition is cond.
@@ -294,8 +559,47 @@ func b1(w *World, r *Report) {
 	}
 	ds := needFn(r, "B-1", w, fref{pkgStake, "Delegatee", "doSlashAll"})
 	if ds != nil {
-		s1 := w.findStore(ds, "recv.SelfPower", "recv.sumPowerOf(recv.Addr)")
-		s2 := w.findStore(ds, "recv.TotalPower", "recv.sumPowerOf(nil)")
+		// the totals are recomputed by functions that sum the powers of the stake list
+		// (of the delegatee's own stakes / of all stakes), however they are packaged
+		var s1, s2 *ssa.Store
+		for _, fs := range w.fieldStores(ds) {
+			c := w.Canon(fs.Addr)
+			if c != "recv.SelfPower" && c != "recv.TotalPower" {
+				continue
+			}
+			var call *ssa.Call
+			idx := 0
+			switch y := stripConv(fs.Val).(type) {
+			case *ssa.Call:
+				call = y
+			case *ssa.Extract:
+				call, _ = y.Tuple.(*ssa.Call)
+				idx = y.Index
+			}
+			if call == nil {
+				continue
+			}
+			g := call.Common().StaticCallee()
+			if g == nil || len(call.Common().Args) != len(g.Params) || len(g.Params) == 0 || w.Canon(call.Common().Args[0]) != "recv" {
+				continue
+			}
+			kind, owner := w.stakePowerSum(g, idx)
+			if strings.HasPrefix(owner, "p") && len(owner) == 2 {
+				if k := int(owner[1] - '0'); k+1 < len(call.Common().Args) {
+					owner = w.Canon(call.Common().Args[k+1])
+				}
+			}
+			if kind == "owned" && owner == "nil" {
+				kind = "all"
+			}
+			st := fs.In.(*ssa.Store)
+			if c == "recv.SelfPower" && kind == "owned" && owner == "recv.Addr" {
+				s1 = st
+			}
+			if c == "recv.TotalPower" && kind == "all" {
+				s2 = st
+			}
+		}
 		ok := s1 != nil && s2 != nil
 		if ok {
 			// recomputation follows every change of the list / of a power and precedes the return
@@ -321,18 +625,8 @@ func b1(w *World, r *Report) {
 	}
 	sp := needFn(r, "B-1", w, fref{pkgStake, "Delegatee", "sumPowerOf"})
 	if sp != nil {
-		e := "recv.Stakes[(phi((φ + 1)|-1) + 1)]"
-		okAcc := false
-		for _, b := range sp.Blocks {
-			for _, in := range b.Instrs {
-				if bo, ok := in.(*ssa.BinOp); ok && strings.HasSuffix(w.Canon(bo), " + "+e+".Power)") {
-					// accumulated only for all (addr == nil) or for the stakes of addr
-					if w.entryOnlyVia(b, "(p0 == nil)", "(bytes.Compare(p0, "+e+".From) == 0)") {
-						okAcc = true
-					}
-				}
-			}
-		}
+		kind, owner := w.stakePowerSum(sp, 0)
+		okAcc := kind == "owned" && owner == "p0"
 		r.Check(okAcc, "B-1", "sumPowerOf", "sums the powers of all stakes, or of those owned by the given address", "sumPowerOf does not sum the stake powers (of the given owner)", fnSite(w, sp))
 	}
 	is := needFn(r, "B-1", w, fref{pkgStake, "Stake", "IsSelfStake"})
@@ -733,28 +1027,15 @@ func o2(w *World, r *Report) {
 		}
 		if depth < 3 && fn.Blocks != nil && !reRefund.MatchString(cv) {
 			// the value may be built from parameters: evaluate it at every call site
-			if cs := w.nodeCallers(fn); len(cs) > 0 && strings.Contains(cv, "p") {
+			if strings.Contains(cv, "p") {
 				all := true
-				for _, c := range cs {
-					if len(c.Site.Common().Args) != len(fn.Params) {
-						all = false
-						break
-					}
-					env := map[*ssa.Parameter]string{}
-					for k, p := range fn.Params {
-						env[p] = w.Canon(c.Site.Common().Args[k])
-					}
-					w.inlineEnv = append(w.inlineEnv, env)
-					s2 := w.Canon(v)
-					w.inlineEnv = w.inlineEnv[:len(w.inlineEnv)-1]
-					if c.Caller.Parent() != nil {
-						s2 = strings.ReplaceAll(s2, "^", "")
-					}
-					if !reRefund.MatchString(s2) {
+				forms := w.CanonAtCallers(fn, v)
+				for _, s2 := range forms {
+					if !reRefund.MatchString(strings.ReplaceAll(s2, "^", "")) {
 						all = false
 					}
 				}
-				if all {
+				if all && len(forms) > 0 {
 					return true, ""
 				}
 			}
@@ -878,13 +1159,18 @@ func checkC13(w *World, r *Report) {
 	if bb != nil {
 		vote := "p0.BlockInfo().LastCommitInfo.Votes[(phi((φ + 1)|-1) + 1)]"
 		immu := "recv.delegateeLedger.ImmutableLedgerAt(phi((p0.Height() - 4)|1), 128)#0"
-		dr := w.findCall(bb, "recv.doRewardTo("+immu+".Get(ledger.ToLedgerKey("+vote+".Validator.Address))#0, p0.Height())")
-		r.Check(dr != nil && w.condCanonHolds(dr.Block(), vote+".SignedLastBlock", 1), "W-1", "BeginBlock:reward-only-signers", "doRewardTo runs only for votes with SignedLastBlock, on the delegatee of that vote's validator address", "rewards are issued for validators that did not sign (or not to the voter's delegatee)", fnSite(w, bb))
+		// found in BeginBlock or in a helper it hands the vote, the ledger and the height to
+		drs := w.findCallsDeep(bb, "recv.doRewardTo("+immu+".Get(ledger.ToLedgerKey("+vote+".Validator.Address))#0, p0.Height())")
+		var dr *deepCall
+		if len(drs) == 1 {
+			dr = &drs[0]
+		}
+		r.Check(dr != nil && w.condHoldsDeep(bb, dr.Fn, dr.Call, vote+".SignedLastBlock", 1, 0), "W-1", "BeginBlock:reward-only-signers", "doRewardTo runs only for votes with SignedLastBlock, on the delegatee of that vote's validator address", "rewards are issued for validators that did not sign (or not to the voter's delegatee)", fnSite(w, bb))
 		r.Check(dr != nil, "W-1", "BeginBlock:stakes-at-height-minus-4", "the rewarded stakes are those recorded at height-4 (immutable ledger), at the block's height", "the rewarded stakes are not read from the immutable delegatee ledger at height-4", fnSite(w, bb))
 		if dr != nil {
 			// power agreement guard
-			pw := w.condCanonHolds(dr.Block(), symCmp(immu+".Get(ledger.ToLedgerKey("+vote+".Validator.Address))#0.TotalPower", "!=", vote+".Validator.Power"), -1)
-			r.Check(pw, "W-1", "BeginBlock:power-agrees-with-vote", "a validator whose recorded power differs from the vote's power is skipped", "the recorded power is no longer compared with the vote's power", site(w, dr))
+			pw := w.condHoldsDeep(bb, dr.Fn, dr.Call, symCmp(immu+".Get(ledger.ToLedgerKey("+vote+".Validator.Address))#0.TotalPower", "!=", vote+".Validator.Power"), -1, 0)
+			r.Check(pw, "W-1", "BeginBlock:power-agrees-with-vote", "a validator whose recorded power differs from the vote's power is skipped", "the recorded power is no longer compared with the vote's power", site(w, dr.Call))
 		}
 	}
 	w.checkCallers(r, "W-1", fref{pkgStake, "Reward", "Issue"}, map[string]string{"stake.(*StakeCtrler).doRewardTo": "per-stake issuance"}, 1)
@@ -922,7 +1208,7 @@ func checkC13(w *World, r *Report) {
 			fe := w.newFactEval(nil, facts...)
 			saved := w.branchMarkers
 			w.branchMarkers = false
-			e := &enumerator{w: w, eval: fe.eval, event: ev, max: 4000, complete: true, evCache: map[ssa.Instruction]string{}, hasEv: map[*ssa.Function]int{}, pathSensitiveEvents: true}
+			e := &enumerator{w: w, eval: fe.eval, event: ev, max: 4000, complete: true, evCache: map[ssa.Instruction]string{}, hasEv: map[*ssa.Function]int{}, pathSensitiveEvents: true, callResults: true}
 			var out []pathEnd
 			e.walkFn(dr, nil, 0, func(evs []string, ret *ssa.Return, term string) {
 				out = append(out, pathEnd{append([]string(nil), evs...), term, ret, nil})
@@ -1229,18 +1515,32 @@ func j2(w *World, r *Report) {
 			"recv.GovProposalHeader.TotalVotingPower=(recv.GovProposalHeader.TotalVotingPower - " + slash + ")": "ST",
 			"recv.GovProposalHeader.MajorityPower=((recv.GovProposalHeader.TotalVotingPower * 2) / 3)":          "SM",
 		}
-		vI := ""
+		// the voter is the record looked up under the offender's address, however the
+		// lookup is packaged (a helper of the header, the key built by a helper)
+		vRe := regexp.MustCompile(`^recv\.GovProposalHeader\.Voters\[[^\]]*\bp0\b[^\]]*\]#0$`)
+		var vForms []string
 		for _, b := range dp.Blocks {
 			for _, in := range b.Instrs {
-				if ex, isE := in.(*ssa.Extract); isE && ex.Index == 0 && w.Canon(ex) == v {
-					vI = w.CanonI(ex)
+				if ex, isE := in.(*ssa.Extract); isE && ex.Index == 0 && !strings.Contains(w.CanonI(ex), "p1") && vRe.MatchString(w.CanonI(ex)) {
+					for _, f := range []string{w.CanonI(ex), w.Canon(ex)} {
+						if f != v {
+							vForms = append(vForms, f)
+						}
+					}
 				}
 			}
+		}
+		sort.Slice(vForms, func(i, j int) bool { return len(vForms[i]) > len(vForms[j]) })
+		normV := func(s string) string {
+			for _, f := range vForms {
+				s = strings.ReplaceAll(s, f, v)
+			}
+			return s
 		}
 		ev := func(in ssa.Instruction) string {
 			switch y := in.(type) {
 			case ssa.CallInstruction:
-				if l, ok := calls[w.canonCall(y.Common(), 0)]; ok {
+				if l, ok := calls[normV(w.canonCall(y.Common(), 0))]; ok {
 					return l
 				}
 				// other 256-bit arithmetic (also what a helper's body looks like before its
@@ -1252,11 +1552,8 @@ func j2(w *World, r *Report) {
 				if _, isF := y.Addr.(*ssa.FieldAddr); !isF {
 					return ""
 				}
-				a := w.Canon(y.Addr)
-				val := w.CanonI(y.Val)
-				if vI != "" && vI != v {
-					val = strings.ReplaceAll(val, vI, v) // the voter lookup with Address.String() inlined
-				}
+				a := normV(w.Canon(y.Addr))
+				val := normV(w.CanonI(y.Val))
 				if l, ok := stores[a+"="+val]; ok {
 					return l
 				}
@@ -1282,6 +1579,19 @@ func j2(w *World, r *Report) {
 			return true
 		}
 		all := w.runUnder(dp, nil, ev)
+		if os.Getenv("RIGOCHECK_DEBUG") == "j2" {
+			fmt.Fprintln(os.Stderr, "J2 vForms", vForms, "complete", all.complete, "ok", all.ok)
+			for _, evs := range all.okEvents {
+				fmt.Fprintln(os.Stderr, "J2 path", evs)
+			}
+			for _, b := range dp.Blocks {
+				for _, in := range b.Instrs {
+					if ex, isE := in.(*ssa.Extract); isE {
+						fmt.Fprintln(os.Stderr, "J2 extract", w.Canon(ex), "|", w.CanonI(ex))
+					}
+				}
+			}
+		}
 		okRatio, okTotals, okOrder := all.complete && all.ok > 0, all.complete && all.ok > 0, all.complete && all.ok > 0
 		nPunish := 0
 		for _, evs := range all.okEvents {
@@ -1323,7 +1633,11 @@ func j2(w *World, r *Report) {
 		r.Check(okRatio, "J-2", "DoPunish:ratio", "the voter's weight loss is power x ratio / 100", "the voter's weight loss is not `power x ratio / 100`", fnSite(w, dp))
 		r.Check(okTotals, "J-2", "DoPunish:totals", "voter power and total voting power shrink by the same amount; majority = total x 2 / 3 afterwards", "DoPunish does not shrink voter power and total by the same amount and recompute the 2/3 majority", fnSite(w, dp))
 		// a voter that has voted and keeps some power: cancelled before, re-cast after
-		voted := w.runUnder(dp, nil, ev, A(v+".Choice", ">=", "0"), A(v+".Power", ">", "0"))
+		votedFacts := []atom{A(v+".Choice", ">=", "0"), A(v+".Power", ">", "0")}
+		for _, f := range vForms {
+			votedFacts = append(votedFacts, A(f+".Choice", ">=", "0"), A(f+".Power", ">", "0"))
+		}
+		voted := w.runUnder(dp, nil, ev, votedFacts...)
 		okV := okOrder && voted.complete && voted.ok > 0
 		nV := 0
 		for _, evs := range voted.okEvents {
@@ -1395,6 +1709,9 @@ func j3(w *World, r *Report) {
 		case callName(c.Common()) == "GetNotSignedBlockCount":
 			if sc == wantCnt {
 				return "CNT"
+			}
+			if os.Getenv("RIGOCHECK_DEBUG") != "" {
+				fmt.Println("DBG J3 cnt", sc)
 			}
 			return "CNT?"
 		}
